@@ -27,6 +27,7 @@ func runC20(c *Ctx) {
 	ruleTaint(c)
 	ruleClassify(c)
 	ruleInfoState(c)
+	ruleLookupErrorKept(c, "CLASSIFY")
 	if m := findTT(c, "CLASSIFY"); m != nil {
 		ruleKeyAddr(c, m, "CLASSIFY") // the address classified for tunnel time is the client's own
 	}
@@ -995,4 +996,123 @@ func ruleClassify(c *Ctx) {
 			}
 		}
 	}
+}
+
+// backwardDeps: everything the value v is computed from inside its function — operands transitively, and for a local cell /
+// array / struct every value stored into it (so varargs slices, fmt.Errorf("%w", err) and errors.Join(a, b) are looked through).
+func backwardDeps(v ssa.Value) map[ssa.Value]bool {
+	seen := map[ssa.Value]bool{}
+	var work []ssa.Value
+	add := func(x ssa.Value) {
+		if x != nil && !seen[x] {
+			seen[x] = true
+			work = append(work, x)
+		}
+	}
+	add(v)
+	for len(work) > 0 {
+		x := work[len(work)-1]
+		work = work[:len(work)-1]
+		if ins, ok := x.(ssa.Instruction); ok {
+			for _, op := range ins.Operands(nil) {
+				if *op != nil {
+					add(*op)
+				}
+			}
+		}
+		if a, ok := x.(*ssa.Alloc); ok && a.Parent() != nil {
+			for _, b := range a.Parent().Blocks {
+				for _, ins := range b.Instrs {
+					if st, ok := ins.(*ssa.Store); ok && allocRoot(st.Addr) == a {
+						add(st.Val)
+					}
+				}
+			}
+		}
+	}
+	return seen
+}
+
+// ruleLookupErrorKept (C20, "XD on database errors"): in the location package, the error of every call into the database
+// library reaches the error the function returns on the paths on which that call failed. (An error assigned to a shadowed
+// variable is lost: the caller sees nil and exports the partial answer instead of XD.)
+func ruleLookupErrorKept(c *Ctx, rule string) {
+	p := c.P
+	n := 0
+	for _, f := range p.FnsIn("ipinfo") {
+		if p.IsTestSupport(f) || len(f.Blocks) == 0 || f.Name() != "GetIPInfo" {
+			continue
+		}
+		if errorResultIndex(f.Signature) < 0 {
+			continue
+		}
+		for _, cl := range eng.Calls(f) {
+			call, ok := cl.(*ssa.Call)
+			if !ok {
+				continue
+			}
+			ei := errorResultIndex(call.Call.Signature())
+			if ei < 0 {
+				continue
+			}
+			// a call into a package outside the module and outside the standard library
+			pkgPath := ""
+			if call.Call.IsInvoke() {
+				if call.Call.Method.Pkg() != nil {
+					pkgPath = call.Call.Method.Pkg().Path()
+				}
+			} else if h := call.Call.StaticCallee(); h != nil && h.Pkg != nil {
+				pkgPath = h.Pkg.Pkg.Path()
+			}
+			if pkgPath == "" || strings.HasPrefix(pkgPath, eng.Mod) || !strings.Contains(strings.SplitN(pkgPath, "/", 2)[0], ".") {
+				continue
+			}
+			n++
+			var errV ssa.Value = call
+			if call.Call.Signature().Results().Len() > 1 {
+				errV = nil
+				for _, r := range *call.Referrers() {
+					if ex, ok := r.(*ssa.Extract); ok && ex.Index == ei {
+						errV = ex
+					}
+				}
+			}
+			key := fmt.Sprintf("%s:lookup#%d(%s):error-reaches-the-result", short(f), n, eng.CalleeName(&call.Call))
+			if errV == nil {
+				c.CheckAt(rule, key, call, false, "the error of this database lookup is discarded: a failed lookup is exported as the (partial) answer instead of XD")
+				continue
+			}
+			_, fail := p.SuccessEdges(f, []ssa.CallInstruction{call}, ei)
+			reach := map[*ssa.BasicBlock]bool{}
+			if len(fail) == 0 {
+				reach = eng.ReachBlocks(call.Block(), nil)
+				reach[call.Block()] = true
+			}
+			for e := range fail {
+				reach[e.To] = true
+				for b := range eng.ReachBlocks(e.To, nil) {
+					reach[b] = true
+				}
+			}
+			good, nr := true, 0
+			var badAt ssa.Instruction = call
+			fe := errorResultIndex(f.Signature)
+			for _, r := range eng.Returns(f) {
+				if !reach[r.Block()] || fe >= len(r.Results) {
+					continue
+				}
+				nr++
+				rv := r.Results[fe]
+				if s := p.ReachingStore(rv, r); s != nil {
+					rv = s
+				}
+				if !backwardDeps(rv)[errV] {
+					good = false
+					badAt = r
+				}
+			}
+			c.CheckAt(rule, key, badAt, good && nr > 0, "the error of this database lookup does not reach the error returned on a path on which the lookup failed (e.g. it is assigned to a shadowed variable): the caller sees no error and exports the partial answer instead of XD")
+		}
+	}
+	c.Floor(rule, "database lookups with an error result in the location package", n, 2)
 }
